@@ -121,6 +121,7 @@ func genWorld09(r *simcore.Rand) (spec *indexsim.WorldSpec, shape string, held [
 	}
 	created := drawInstants(r, cshape, n)
 	typed := r.Bool(0.3)
+	zoned := r.Bool(0.3)
 	const anchor = int64(300000) // inspected attributes are claimed before this (past) instant
 	for i := 0; i < n; i++ {
 		pn := g.pn()
@@ -161,7 +162,15 @@ func genWorld09(r *simcore.Rand) (spec *indexsim.WorldSpec, shape string, held [
 			if cshape == "subsecond" && r.Bool(0.5) {
 				t = t.Add(time.Duration(r.Intn(1000)) * time.Nanosecond)
 			}
-			g.add(indexsim.Item{K: "claim", S: 0, PN: pn, CT: "set", Attr: "dateCreated", Val: t.UTC().Format(time.RFC3339Nano), D: next()})
+			val := t.UTC().Format(time.RFC3339Nano)
+			if zoned && r.Bool(0.6) {
+				// the same instant written with a zone offset (what
+				// importers and cameras write): order and ties are a
+				// matter of instants, not of spellings
+				off := []int{19800, -28800, 3600, 45 * 60}[r.Intn(4)]
+				val = t.In(time.FixedZone("", off)).Format(time.RFC3339Nano)
+			}
+			g.add(indexsim.Item{K: "claim", S: 0, PN: pn, CT: "set", Attr: "dateCreated", Val: val, D: next()})
 		}
 		// the latest claim decides the modification time; its attribute is
 		// never inspected by a query
